@@ -820,7 +820,22 @@ func (ba *boundAnalysis) analyze(fn *ssa.Function, report bool) bool {
 					pt = make([]bool, res.Len())
 					ba.passThru[fn] = pt
 				}
+				// what accompanies a definitely non-nil error is not a result anyone may use (C10.h decides that errors are
+				// consulted): only the values of returns that can report success count
+				definitelyFails := false
+				if errIdx >= 0 && errIdx < len(x.Results) {
+					ev := x.Results[errIdx]
+					if !isNilConst(ev) && !mayBeNilError(ev) {
+						definitelyFails = true
+					}
+					if c, ok := ev.(*ssa.Call); ok && (calleeIs(c, "fmt.Errorf") || calleeIs(c, "errors.New")) {
+						definitelyFails = true
+					}
+				}
 				for i, rv := range x.Results {
+					if definitelyFails {
+						break
+					}
 					ri := s.raw[rv]
 					if ri == nil || !isIntegerType(rv.Type()) || s.isBounded(rv, G) {
 						continue
